@@ -2,7 +2,7 @@
    Statements only; every proof is `exact <lemma>`.                          *)
 From Coq Require Import ZArith NArith List Bool.
 From XV Require Import core.Value model.Hash model.Cache model.Seal model.Spec
-  proofs.Cache_lemmas proofs.Spec_lemmas proofs.Seal_lemmas proofs.Cyclic_lemmas proofs.Coherence_lemmas model.StateInv.
+  proofs.Cache_lemmas proofs.Spec_lemmas proofs.Seal_lemmas proofs.Cyclic_lemmas proofs.Coherence_lemmas model.StateInv proofs.OwnMark_lemmas.
 Import ListNotations.
 
 (* seal(r) marks every configuration reachable from r - through parameters, lists, dicts,
@@ -82,3 +82,33 @@ Print Assumptions C14_identifier_frame.
 Theorem C14_state_invariant_checkable : forall H cs fuel g, ginv_b H cs fuel g = true -> ginv H cs g.
 Proof. exact ginv_b_sound. Qed.
 Print Assumptions C14_state_invariant_checkable.
+
+(* ---- a task that marks one of its own parameters as its output (task_outputs returns dep(self.c)) --------------
+   `mark h c t` is the graph after the mark has been set on the (so far unmarked) configuration c.  The identifier
+   of the task t - the name of its job directory - computed on the marked graph, in any context, has the bytes it
+   had on the graph the task was submitted with (only the loop flag may differ).                                  *)
+Theorem C14_own_mark_keeps_task_identifier : forall H cs h look c t x,
+  nth_error h c = Some x -> n_task x = None -> t <> c -> forall fuel st d e,
+  hnode H cs (mark h c t) look fuel st t = Ok (d, e) -> exists e', hnode H cs h look fuel st t = Ok (d, e').
+Proof. exact mark_keeps_task_identifier. Qed.
+Print Assumptions C14_own_mark_keeps_task_identifier.
+
+(* more generally: everything hashed while the task is on the stack (its whole own graph) *)
+Theorem C14_own_mark_invisible_within_task : forall H cs h look c t x,
+  nth_error h c = Some x -> n_task x = None -> t <> c -> forall fuel st v b e, In t st ->
+  hv H cs (mark h c t) look fuel st v = Ok (b, e) -> exists e', hv H cs h look fuel st v = Ok (b, e').
+Proof. exact mark_invisible_within_task. Qed.
+Print Assumptions C14_own_mark_invisible_within_task.
+
+(* non-vacuity, and the mark is NOT invisible from outside the task: the output's own identifier carries it *)
+Theorem C14_own_mark_example :
+  exists d e e', hnode (fun b => b) om_classes (mark om_heap 0 1) (fun _ => None) 5 [] 1 = Ok (d, e)
+                 /\ hnode (fun b => b) om_classes om_heap (fun _ => None) 5 [] 1 = Ok (d, e') /\ e = 1 /\ e' = 0.
+Proof. exact own_mark_example. Qed.
+Print Assumptions C14_own_mark_example.
+
+Theorem C14_own_mark_output_differs :
+  hnode (fun b => b) om_classes (mark om_heap 0 1) (fun _ => None) 5 [] 0
+  <> hnode (fun b => b) om_classes om_heap (fun _ => None) 5 [] 0.
+Proof. exact own_mark_output_differs. Qed.
+Print Assumptions C14_own_mark_output_differs.
